@@ -1,5 +1,80 @@
 /-
-C15 — property theorems (stub: not built yet).
+C15 — right-to-left mode is the mirror image of left-to-right.
+
+`Spec.m` is direction-parametric; the theorems of C01 are stated for both directions.  This file
+restates the direction-specific facts the property lists.
 -/
+import RegexVerif.Props.C01
+
 namespace RegexVerif.Props.C15
+open RegexVerif RegexVerif.Spec
+
+/-- **Attempt positions descend from the start offset**: with `rtl = true` find returns the attempt
+    at the *largest* position `≤ start` at which an attempt succeeds. -/
+theorem find_rtl_descends (e : Env) (p : Pat) (start : Nat) (st : St) (i : Nat)
+    (hfind : find e p true start = some st)
+    (hi : i ≤ start) (hsucc : (attempt e p true i).isSome) :
+    ∃ j, i ≤ j ∧ j ≤ start ∧ attempt e p true j = some st := by
+  obtain ⟨before, j, after, hso, hat, hbefore⟩ := (C01.find_eq_some_iff e p true start st).mp hfind
+  have hj : j ∈ scanOrder true start e.n := by rw [hso]; simp
+  have hjs := (C01.mem_scanOrder_rtl start e.n j).mp hj
+  refine ⟨j, ?_, hjs, hat⟩
+  -- i is in the scan order; it is not in `before` (its attempt succeeds), so it is j or after j
+  have himem : i ∈ scanOrder true start e.n := (C01.mem_scanOrder_rtl start e.n i).mpr hi
+  rw [hso] at himem
+  have hsorted := C01.scanOrder_sorted true start e.n
+  rw [hso] at hsorted
+  simp only [List.mem_append, List.mem_cons] at himem
+  rcases himem with hb | rfl | ha
+  · have := hbefore i hb; rw [this] at hsucc; simp at hsucc
+  · exact Nat.le_refl _
+  · have := (List.pairwise_append.mp hsorted).2.1
+    have := (List.pairwise_cons.mp this).1 i ha
+    simp at this; omega
+
+/-- **Every construct consumes leftwards**: a single-character item matched right-to-left ends one
+    position to the left and tested the rune before the position. -/
+theorem chr_rtl (e : Env) (p : Pred) (st st' : St) (h : st' ∈ m e (.chr p) true st) :
+    st'.pos + 1 = st.pos ∧ st'.caps = st.caps ∧ ∃ r, e.text[st'.pos]? = some r ∧ p.test e r = true := by
+  simp only [m, stepChar, if_true] at h
+  split at h
+  · rename_i r pos' hstep
+    split at hstep
+    · simp at hstep
+    · rename_i hne
+      cases hget : e.text[st.pos - 1]? with
+      | none => simp [hget] at hstep
+      | some x =>
+        simp [hget] at hstep
+        obtain ⟨rfl, rfl⟩ := hstep
+        split at h
+        · rename_i ht
+          simp at h; subst h
+          exact ⟨by simp; omega, rfl, x, by simpa using hget, ht⟩
+        · simp at h
+  · simp at h
+
+/-- **Concatenations are evaluated last-to-first** under right-to-left. -/
+theorem seq_rtl (e : Env) (a b : Pat) (st : St) :
+    m e (.seq a b) true st = (m e b true st).flatMap (m e a true) := by
+  simp [m]
+
+/-- **Lookahead still looks rightwards, lookbehind leftwards**, whatever the direction of the
+    enclosing pattern. -/
+theorem look_direction (e : Env) (behind neg : Bool) (body : Pat) (rtl : Bool) (st : St) :
+    m e (.look behind neg body) rtl st = m e (.look behind neg body) (!rtl) st := by
+  simp [m]
+
+/-- **Captures are ordinary (start, length) spans** in both directions. -/
+theorem cap_span (e : Env) (g : Nat) (body : Pat) (rtl : Bool) (st st' : St) (h : st' ∈ m e (.cap g body) rtl st) :
+    ∃ caps, st'.caps = caps ++ [(g, min st.pos st'.pos, max st.pos st'.pos - min st.pos st'.pos)] := by
+  simp only [m, List.mem_map] at h
+  obtain ⟨y, _, rfl⟩ := h
+  exact ⟨y.caps, rfl⟩
+
+/-- non-vacuity: `a(b)` matched right-to-left on "xab" from the end -/
+example : find { text := [120, 97, 98], textstart := 3, named := [], word := [], fold := [] }
+    (.seq (.chr (.one 97 false)) (.cap 1 (.chr (.one 98 false)))) true 3
+    = some { pos := 1, caps := [(1, 2, 1), (0, 1, 2)] } := by decide
+
 end RegexVerif.Props.C15
